@@ -239,18 +239,24 @@ impl<'a> CompilerState<'a> {
         v
     }
 
-    pub fn syntax_error(&self, message: &str, loc: usize) -> Error {
+    // Index into mapped_lines of the preprocessed line containing offset loc
+    fn line_index(&self, loc: usize) -> usize {
         let mut line_number: usize = 0;
         let mut char_number = 0;
         for c in self.preprocessed_utf8.chars() {
+            if char_number == loc {
+                break;
+            }
             if c == '\n' {
                 line_number += 1;
             }
             char_number += 1;
-            if char_number == loc {
-                break;
-            }
         }
+        line_number.min(self.mapped_lines.len().saturating_sub(1))
+    }
+
+    pub fn syntax_error(&self, message: &str, loc: usize) -> Error {
+        let line_number = self.line_index(loc);
         let included_in = self.mapped_lines[line_number]
             .2
             .as_ref()
@@ -264,17 +270,7 @@ impl<'a> CompilerState<'a> {
     }
 
     pub fn compiler_error(&self, message: &str, loc: usize) -> Error {
-        let mut line_number: usize = 0;
-        let mut char_number = 0;
-        for c in self.preprocessed_utf8.chars() {
-            if c == '\n' {
-                line_number += 1;
-            }
-            char_number += 1;
-            if char_number == loc {
-                break;
-            }
-        }
+        let line_number = self.line_index(loc);
         let included_in = self.mapped_lines[line_number]
             .2
             .as_ref()
@@ -288,17 +284,7 @@ impl<'a> CompilerState<'a> {
     }
 
     pub fn warning(&self, msg: &str, loc: usize) -> () {
-        let mut line_number: usize = 0;
-        let mut char_number = 0;
-        for c in self.preprocessed_utf8.chars() {
-            if c == '\n' {
-                line_number += 1;
-            }
-            char_number += 1;
-            if char_number == loc {
-                break;
-            }
-        }
+        let line_number = self.line_index(loc);
         let included_in = self.mapped_lines[line_number]
             .2
             .as_ref()
